@@ -67,7 +67,16 @@ func (c serviceCodec) Encode(result interface{}, context *ServiceContext) ([]byt
 		_ = encoder.Write(result)
 	}
 	encoder.WriteTag(io.TagEnd)
-	return encoder.Bytes(), encoder.Error
+	if err := encoder.Error; err != nil {
+		if _, isError := result.(error); !isError {
+			// the result can not be written (a time beyond year 9999, a channel ...): the
+			// caller gets that as the error of its call, not a cut response next to an
+			// error that the transports report out of band
+			return c.Encode(err, context)
+		}
+		return nil, err
+	}
+	return encoder.Bytes(), nil
 }
 
 // Decode request.
